@@ -2,6 +2,8 @@ package exec
 
 import (
 	"fmt"
+	"os"
+	"strconv"
 	"strings"
 	"testing"
 	"time"
@@ -190,6 +192,9 @@ func TestC30(t *testing.T) {
 		"non-trivial = a computation / memory / call-depth limit error was the outcome; distinct by (seed program, engine, limits)")
 
 	budget := 120 * time.Second
+	if b, err := strconv.Atoi(os.Getenv("EXEC_C30_BUDGET_S")); err == nil && b > 0 {
+		budget = time.Duration(b) * time.Second // development aid (mutation runs)
+	}
 	if p := evid.ReplayFile(); p != "" {
 		var bc execgen.BoundCase
 		if err := evid.LoadReplay(p, &bc); err != nil {
